@@ -145,4 +145,45 @@ func init() {
 		}
 		props["C04"] = p
 	}
+
+	// ---- C19 ----
+	{
+		p := &Prop{ID: "C19", Outside: []string{
+			"value trees deeper than 2 / wider than 2 members; mapping keys other than a, b",
+			"scalar contents other than one lower-case letter or the ${{ x }} placeholder",
+			"two identical expression scalars in one row are structurally equal and reported; the statement is read as not covering them",
+			"message text of the diagnostics",
+		}}
+		p.Quick = []HRun{
+			{Entry: "HarnessC19Relations", Args: []int64{1, 1}, Bound: "all pairs of value trees of depth <= 1, symbolic scalar bytes, symbolic map iteration order", Require: []string{"compared"}},
+			{Entry: "HarnessC19Relations", Args: []int64{2, 1}, Bound: "value trees of depth <= 2 against depth <= 1", Require: []string{"compared"}},
+			{Entry: "HarnessC19Rule", Args: []int64{1, 1}, Bound: "RuleMatrix on rows/exclude/include built from all pairs of depth <= 1 trees", Require: []string{"rows", "exclude-reported", "exclude-silent"}},
+		}
+		p.Thorough = []HRun{
+			{Entry: "HarnessC19Relations", Args: []int64{2, 2}, Bound: "all pairs of value trees of depth <= 2 (about 5*10^5 shape pairs)", Require: []string{"compared"}},
+			{Entry: "HarnessC19Rule", Args: []int64{2, 1}, Bound: "RuleMatrix on depth <= 2 against depth <= 1 trees", Require: []string{"rows", "exclude-reported", "exclude-silent"}},
+			{Entry: "HarnessC19Rule", Args: []int64{1, 2}, Bound: "RuleMatrix on depth <= 1 against depth <= 2 trees", Require: []string{"rows", "exclude-reported", "exclude-silent"}},
+		}
+		props["C19"] = p
+	}
+
+	// ---- C18 ----
+	{
+		p := &Prop{ID: "C18", Outside: []string{
+			"graphs with more jobs than the bound (the statement asks 5 exhaustively; 4 is what runs clean here)",
+			"several extra entries at once; ids other than single letters",
+			"with n = 4 only the DFS entry order is symbolic and needs lists are written in index order",
+		}}
+		p.Quick = []HRun{
+			{Entry: "HarnessC18Needs", Args: []int64{2, 1, 0}, Bound: "2 jobs: every edge set x list orders x extra entry x every map iteration order", Require: []string{"cycle-reported", "no-cycle-reported", "dangling"}},
+			{Entry: "HarnessC18Needs", Args: []int64{3, 0, 0}, Bound: "3 jobs: every edge set (2^9) x list orders x every map iteration order", Require: []string{"cycle-reported", "no-cycle-reported"}},
+			{Entry: "HarnessC18Needs", Args: []int64{3, 1, 1}, Bound: "3 jobs: every edge set x extra entry (dangling / duplicate / upper case) x DFS entry order", Require: []string{"cycle-reported", "no-cycle-reported", "dangling"}},
+		}
+		p.Thorough = []HRun{
+			{Entry: "HarnessC18Needs", Args: []int64{3, 1, 0}, Bound: "3 jobs: every edge set x list orders x extra entry x every map iteration order", Require: []string{"cycle-reported", "no-cycle-reported", "dangling"}},
+			{Entry: "HarnessC18Needs", Args: []int64{4, 0, 1}, Bound: "4 jobs: every edge set (2^16) x DFS entry order", Require: []string{"cycle-reported", "no-cycle-reported"}},
+			{Entry: "HarnessC18Needs", Args: []int64{4, 1, 1}, Bound: "4 jobs: every edge set x extra entry x DFS entry order", Require: []string{"cycle-reported", "no-cycle-reported", "dangling"}},
+		}
+		props["C18"] = p
+	}
 }
